@@ -1,15 +1,12 @@
 /-
-Token-level round trip with layout, part 2: expressions.
+Token-level round trip with layout, part 2: expressions — the induction over the rendering relation `LinX`, and the interface the
+statement proofs use.
 
-The port of Proofs/ParserRoundtrip.lean (one-line lexer `tokenOps`, relation `Lin`) to the layout-aware lexer `layoutOps Y` and the
-relation `LinE Y`.  The structure is the same: claims `C1 … C7`, one per precedence level, proved by induction on `LinE`
-(`linE_claim`); every claim is "stable" (it holds for every fuel from a bound on).
-
-What is new: the tokens of the expression are `Glued` (no statement line break inside), the whole token list is `InOrder`
-(that is what `next` needs to compute the lines), and what follows the expression `Stop`s it: it is not a comma and either the
-statement is complete there (a statement line break after the last token) or the next token is not in the follow set.
+The cases are in Proofs/StmtExprBase.lean (operators, assignment, the trailing comma), StmtExprMember.lean (leaves, `{ e }`, `其 p`,
+member chains), StmtExprCall.lean (calls, 新建, method-call chains, 得到) and StmtExprArr.lean (list and dictionary literals).
 -/
-import ZnVerif.Proofs.StmtBase
+import ZnVerif.Proofs.StmtExprCall
+import ZnVerif.Proofs.StmtExprArr
 
 namespace ZnVerif.Proofs.StmtRT
 open ZnVerif.Model ZnVerif.Model.Parser ZnVerif.Generated.Tokens ZnVerif.Generated.ParserTables
@@ -17,563 +14,102 @@ open ZnVerif.Spec.StmtSyntax
 
 variable {Y : Layout} {v : Variant}
 
--- follow sets: token types that would continue an expression of the given level (or be swallowed / skipped)
-def F7 : List Nat := [cTypeMapHash, cTypeObjDotW, cTypeObjDotIIW, cTypeCommaSep, cTypeComment]
-def F6 : List Nat := F7 ++ mulDivTypes
-def F5 : List Nat := F6 ++ addSubTypes
-def F4 : List Nat := F5 ++ (lv4ValidTypes ++ lv4VarAssignExtra)
-def F3 : List Nat := F4 ++ lv3ValidTypes
-def F2 : List Nat := F3 ++ [cTypeLogicAndW]
-def F1 : List Nat := F2 ++ [cTypeLogicOrW]
+/-- what the induction over `LinX` carries -/
+def NodeClaimX (v : Variant) (Y : Layout) (cfg : Bool) (k : Nat) : ENode → List Token → Prop
+  | .expr e, ts => Facts Y ts ∧ Claim v Y cfg k e ts
+  | .args es, ts => Facts Y ts ∧ CArgs v Y es ts
+  | .fcall n ps, ts => (ts ≠ [] ∧ (Y.peek ts).type = cTypeIdentifier) ∧ CFcallT v Y n ps ts
+  | .chain cs, ts => CChain v Y cs ts
+  | .items es, ts => (ts ≠ [] → Facts Y ts) ∧ CItems v Y es ts
+  | .kvs kvs, ts => (ts ≠ [] → Facts Y ts) ∧ CKvs v Y kvs ts
 
-/-- what follows the tokens `ts` stops an expression of follow set `F`: it is not a comma, and either the statement is complete
-(a statement line break after the last token of `ts`) or the next token is not in `F` -/
-def Stop (Y : Layout) (F : List Nat) (ts rest : List Token) : Prop :=
-  (Y.peek rest).type ≠ cTypeCommaSep ∧ (Y.jf ts.getLast? (Y.peek rest) = true ∨ (Y.peek rest).type ∉ F)
-
-theorem Stop.mono {F F' : List Nat} {ts rest : List Token} (hs : Stop Y F ts rest) (h : ∀ ty, ty ∉ F → ty ∉ F') :
-    Stop Y F' ts rest :=
-  ⟨hs.1, hs.2.imp id (h _)⟩
-
-/-- the premise of the `*_now` lemmas in the state `Send Y ts rest` -/
-theorem Stop.fl {F tys : List Nat} {ts rest : List Token} (hs : Stop Y F ts rest) (h : ∀ ty, ty ∉ F → ty ∉ tys) :
-    Y.jf ts.getLast? (Y.peek rest) = true ∨ (Y.peek rest).type ∉ tys :=
-  hs.2.imp id (h _)
-
-section tails
-variable (e : Expr) (p1 : Option Token) (rest : List Token) (fl : Bool)
-
-theorem lv1Tail_now (h : fl = true ∨ (Y.peek rest).type ∉ [cTypeLogicOrW]) (hc : (Y.peek rest).type ≠ cTypeCommaSep) :
-    Stable v Y (.lv1Tail true e) (S Y p1 rest fl) (.ok e (S Y p1 rest fl)) 1 := by
-  intro n' hn
-  obtain ⟨m, rfl⟩ : ∃ m, n' = m + 1 := ⟨n' - 1, by omega⟩
-  show pLv1Tail (layoutOps Y) m _ true e _ = _
-  unfold pLv1Tail
-  rw [bind_ok (tryConsume_miss m _ p1 rest fl h hc)]
-  rfl
-
-theorem lv2Tail_now (h : fl = true ∨ (Y.peek rest).type ∉ [cTypeLogicAndW]) (hc : (Y.peek rest).type ≠ cTypeCommaSep) :
-    Stable v Y (.lv2Tail true e) (S Y p1 rest fl) (.ok e (S Y p1 rest fl)) 1 := by
-  intro n' hn
-  obtain ⟨m, rfl⟩ : ∃ m, n' = m + 1 := ⟨n' - 1, by omega⟩
-  show pLv2Tail (layoutOps Y) m _ true e _ = _
-  unfold pLv2Tail
-  rw [bind_ok (tryConsume_miss m _ p1 rest fl h hc)]
-  rfl
-
-theorem arithTail_now (h : fl = true ∨ (Y.peek rest).type ∉ addSubTypes) (hc : (Y.peek rest).type ≠ cTypeCommaSep) :
-    Stable v Y (.arithTail e) (S Y p1 rest fl) (.ok e (S Y p1 rest fl)) 1 := by
-  intro n' hn
-  obtain ⟨m, rfl⟩ : ∃ m, n' = m + 1 := ⟨n' - 1, by omega⟩
-  show pArithTail (layoutOps Y) m _ e _ = _
-  unfold pArithTail
-  rw [bind_ok (tryConsume_miss m _ p1 rest fl h hc)]
-  rfl
-
-theorem mulDivTail_now (h : fl = true ∨ (Y.peek rest).type ∉ mulDivTypes) (hc : (Y.peek rest).type ≠ cTypeCommaSep) :
-    Stable v Y (.mulDivTail e) (S Y p1 rest fl) (.ok e (S Y p1 rest fl)) 1 := by
-  intro n' hn
-  obtain ⟨m, rfl⟩ : ∃ m, n' = m + 1 := ⟨n' - 1, by omega⟩
-  show pMulDivTail (layoutOps Y) m _ e _ = _
-  unfold pMulDivTail
-  rw [bind_ok (tryConsume_miss m _ p1 rest fl h hc)]
-  rfl
-
-theorem memberTail_now (h : fl = true ∨ (Y.peek rest).type ∉ [cTypeMapHash, cTypeObjDotW, cTypeObjDotIIW])
-    (hc : (Y.peek rest).type ≠ cTypeCommaSep) :
-    Stable v Y (.memberTail e) (S Y p1 rest fl) (.ok e (S Y p1 rest fl)) 1 := by
-  intro n' hn
-  obtain ⟨m, rfl⟩ : ∃ m, n' = m + 1 := ⟨n' - 1, by omega⟩
-  show pMemberTail v (layoutOps Y) m _ e _ = _
-  unfold pMemberTail
-  rw [bind_ok (tryConsume_miss m _ p1 rest fl h hc)]
-  rfl
-
-end tails
-
-/-- fuel bound of level `k` on `ts`: looser levels sit higher in the call chain -/
-def D (k : Nat) (ts : List Token) : Nat := 16 * ts.length + 2 * (8 - k)
-
-def C7 (v : Variant) (Y : Layout) (e : Expr) (ts : List Token) : Prop :=
-  ∀ p1 rest, Y.InOrder (ts ++ rest) → Y.Glued ts → Stop Y F7 ts rest →
-    Stable v Y .member (S Y p1 (ts ++ rest) false) (.ok e (Send Y ts rest)) (D 7 ts)
-def C6 (v : Variant) (Y : Layout) (e : Expr) (ts : List Token) : Prop :=
-  ∀ p1 rest r n, 1 ≤ n → Y.InOrder (ts ++ rest) → Y.Glued ts → Stop Y F7 ts rest →
-    Stable v Y (.mulDivTail e) (Send Y ts rest) r n → Stable v Y .mulDiv (S Y p1 (ts ++ rest) false) r (n + D 6 ts)
-def C5 (v : Variant) (Y : Layout) (e : Expr) (ts : List Token) : Prop :=
-  ∀ p1 rest r n, 1 ≤ n → Y.InOrder (ts ++ rest) → Y.Glued ts → Stop Y F6 ts rest →
-    Stable v Y (.arithTail e) (Send Y ts rest) r n → Stable v Y .arith (S Y p1 (ts ++ rest) false) r (n + D 5 ts)
-def C4 (v : Variant) (Y : Layout) (e : Expr) (ts : List Token) : Prop :=
-  ∀ p1 rest, Y.InOrder (ts ++ rest) → Y.Glued ts → Stop Y F4 ts rest →
-    Stable v Y (.lv4 true) (S Y p1 (ts ++ rest) false) (.ok e (Send Y ts rest)) (D 4 ts)
-def C3 (v : Variant) (Y : Layout) (e : Expr) (ts : List Token) : Prop :=
-  ∀ p1 rest, Y.InOrder (ts ++ rest) → Y.Glued ts → Stop Y F3 ts rest →
-    Stable v Y (.lv3 true) (S Y p1 (ts ++ rest) false) (.ok e (Send Y ts rest)) (D 3 ts)
-def C2 (v : Variant) (Y : Layout) (e : Expr) (ts : List Token) : Prop :=
-  ∀ p1 rest r n, 1 ≤ n → Y.InOrder (ts ++ rest) → Y.Glued ts → Stop Y F3 ts rest →
-    Stable v Y (.lv2Tail true e) (Send Y ts rest) r n → Stable v Y (.lv2 true) (S Y p1 (ts ++ rest) false) r (n + D 2 ts)
-def C1 (v : Variant) (Y : Layout) (e : Expr) (ts : List Token) : Prop :=
-  ∀ p1 rest r n, 1 ≤ n → Y.InOrder (ts ++ rest) → Y.Glued ts → Stop Y F2 ts rest →
-    Stable v Y (.lv1Tail true e) (Send Y ts rest) r n → Stable v Y (.expr true) (S Y p1 (ts ++ rest) false) r (n + D 1 ts)
-
-def Claim (v : Variant) (Y : Layout) : Nat → Expr → List Token → Prop
-  | 1 => C1 v Y | 2 => C2 v Y | 3 => C3 v Y | 4 => C4 v Y | 5 => C5 v Y | 6 => C6 v Y | 7 => C7 v Y
-  | _ => fun _ _ => False
-
-structure Facts (Y : Layout) (ts : List Token) : Prop where
-  ne : ts ≠ []
-  plain : ∀ t ∈ ts, Plain t
-  first : (Y.peek ts).type ∈ [cTypeIdentifier, cTypeString, cTypeStmtQuoteL]
-
-theorem plain_of_mem {l : List Nat} (hl : ∀ ty ∈ l, ty ≠ cTypeEOF ∧ ty ≠ cTypeCommaSep ∧ ty ≠ cTypeComment) {t : Token}
-    (h : t.type ∈ l) : Plain t := hl _ h
-
-theorem lv3_plain : ∀ ty ∈ lv3ValidTypes, ty ≠ cTypeEOF ∧ ty ≠ cTypeCommaSep ∧ ty ≠ cTypeComment := by decide
-theorem addSub_plain : ∀ ty ∈ addSubTypes, ty ≠ cTypeEOF ∧ ty ≠ cTypeCommaSep ∧ ty ≠ cTypeComment := by decide
-theorem mulDiv_plain : ∀ ty ∈ mulDivTypes, ty ≠ cTypeEOF ∧ ty ≠ cTypeCommaSep ∧ ty ≠ cTypeComment := by decide
-
-theorem facts_binop {ta tb : List Token} {t : Token} (ha : Facts Y ta) (hb : Facts Y tb) (ht : Plain t) :
-    Facts Y (ta ++ t :: tb) where
-  ne := by simp
-  plain := by
-    intro x hx
-    simp only [List.mem_append, List.mem_cons] at hx
-    rcases hx with hx | rfl | hx
-    · exact ha.plain x hx
-    · exact ht
-    · exact hb.plain x hx
-  first := by rw [peek_append ha.ne]; exact ha.first
-
-theorem getLast?_binop (ta tb : List Token) (t : Token) (h : tb ≠ []) : (ta ++ t :: tb).getLast? = tb.getLast? := by
-  rw [List.append_cons, getLast?_append_ne _ h]
-
-theorem Send_binop (ta tb rest : List Token) (t : Token) (h : tb ≠ []) : Send Y (ta ++ t :: tb) rest = Send Y tb rest := by
-  unfold Send
-  rw [getLast?_binop ta tb t h]
-
-theorem stop_binop {F : List Nat} (ta tb rest : List Token) (t : Token) (h : tb ≠ []) (hs : Stop Y F (ta ++ t :: tb) rest) :
-    Stop Y F tb rest := by
-  unfold Stop at hs ⊢
-  rwa [getLast?_binop ta tb t h] at hs
-
-/-- state after the tokens of `ta`, when the operator `t` and the right operand follow: no break before the operator -/
-theorem Send_mid (ta tb rest : List Token) (t : Token) (hg : Y.Glued (ta ++ t :: tb)) :
-    Send Y ta (t :: tb ++ rest) = S Y ta.getLast? (t :: (tb ++ rest)) false := by
-  show S Y ta.getLast? (t :: (tb ++ rest)) (Y.jf ta.getLast? t) = _
-  rw [glued_joint ta hg]
-
-/-- flag after consuming a token when a glued token follows -/
-theorem brk_mid {t : Token} {tb : List Token} (hne : tb ≠ []) (hg : Y.Glued (t :: tb)) (rest : List Token) :
-    Y.brk t (Y.peek (tb ++ rest)) = false := by
-  cases tb with
-  | nil => exact absurd rfl hne
-  | cons u r => exact hg.1
-
-theorem not_mem_of_append_left {a : Nat} {l1 l2 : List Nat} (h : a ∉ l1 ++ l2) : a ∉ l1 :=
-  fun h' => h (List.mem_append_left _ h')
-theorem not_mem_of_append_right {a : Nat} {l1 l2 : List Nat} (h : a ∉ l1 ++ l2) : a ∉ l2 :=
-  fun h' => h (List.mem_append_right _ h')
-
-theorem F7_member {ty : Nat} (h : ty ∉ F7) : ty ∉ [cTypeMapHash, cTypeObjDotW, cTypeObjDotIIW] := by
-  simp only [F7, List.mem_cons, List.not_mem_nil, or_false, not_or] at h ⊢
-  exact ⟨h.1, h.2.1, h.2.2.1⟩
-
-theorem F21 {ty : Nat} : ty ∉ F1 → ty ∉ F2 := not_mem_of_append_left
-theorem F32 {ty : Nat} : ty ∉ F2 → ty ∉ F3 := not_mem_of_append_left
-theorem F43 {ty : Nat} : ty ∉ F3 → ty ∉ F4 := not_mem_of_append_left
-theorem F54 {ty : Nat} : ty ∉ F4 → ty ∉ F5 := not_mem_of_append_left
-theorem F65 {ty : Nat} : ty ∉ F5 → ty ∉ F6 := not_mem_of_append_left
-theorem F76 {ty : Nat} : ty ∉ F6 → ty ∉ F7 := not_mem_of_append_left
-
-/-- `a 或 b` -/
-theorem case_or (t : Token) (a b : Expr) (ta tb : List Token) (ht : t.type = cTypeLogicOrW)
-    (Ca : C1 v Y a ta) (Fb : Facts Y tb) (Cb : C2 v Y b tb) :
-    C1 v Y (.logic (Y.sl t) cLogicOR a b) (ta ++ t :: tb) := by
-  intro p1 rest r n hn1 ho hg hs hstab
-  have htp : Plain t := by unfold Plain; rw [ht]; decide
-  rw [List.append_assoc] at ho
-  have hob : Y.InOrder (t :: (tb ++ rest)) := inOrder_drop ta ho
-  have hgb : Y.Glued (t :: tb) := glued_drop ta hg
-  have hsb : Stop Y F2 tb rest := stop_binop ta tb rest t Fb.ne hs
-  have key : Stable v Y (.lv1Tail true a) (Send Y ta (t :: tb ++ rest)) r (max n (1 + D 2 tb) + 1) := by
-    intro n' hn
-    obtain ⟨m, rfl⟩ : ∃ m, n' = m + 2 := ⟨n' - 2, by unfold D at hn; omega⟩
-    rw [Send_mid ta tb rest t hg]
-    show pLv1Tail (layoutOps Y) (m + 1) _ true a _ = r
-    unfold pLv1Tail
-    rw [bind_ok (tryConsume_hit m _ _ t (tb ++ rest) (by simp [ht]) htp.2.1 hob)]
-    simp only [brk_mid Fb.ne hgb rest]
-    have hb := Cb (some t) rest (.ok b (Send Y tb rest)) 1 (Nat.le_refl _) (inOrder_tail hob) (glued_tail hgb)
-      (hsb.mono fun _ => F32)
-      (lv2Tail_now b _ rest _ (hsb.fl fun _ => not_mem_of_append_right) hsb.1) (m + 1) (by omega)
-    rw [bind_ok hb, bind_ok (lineOf_S t _)]
-    rw [Send_binop ta tb rest t Fb.ne] at hstab
-    exact hstab (m + 1) (by omega)
-  have hhead : Stop Y F2 ta (t :: tb ++ rest) := ⟨htp.2.1, Or.inr (by show t.type ∉ F2; rw [ht]; decide)⟩
-  have := Ca p1 (t :: tb ++ rest) r _ (by omega) ho (glued_take ta hg) hhead key
-  rw [List.append_assoc]
-  refine this.mono ?_
-  unfold D
-  simp only [List.length_append, List.length_cons]
-  omega
-
-/-- `a 且 b` -/
-theorem case_and (t : Token) (a b : Expr) (ta tb : List Token) (ht : t.type = cTypeLogicAndW)
-    (Ca : C2 v Y a ta) (Fb : Facts Y tb) (Cb : C3 v Y b tb) :
-    C2 v Y (.logic (Y.sl t) cLogicAND a b) (ta ++ t :: tb) := by
-  intro p1 rest r n hn1 ho hg hs hstab
-  have htp : Plain t := by unfold Plain; rw [ht]; decide
-  rw [List.append_assoc] at ho
-  have hob : Y.InOrder (t :: (tb ++ rest)) := inOrder_drop ta ho
-  have hgb : Y.Glued (t :: tb) := glued_drop ta hg
-  have hsb : Stop Y F3 tb rest := stop_binop ta tb rest t Fb.ne hs
-  have key : Stable v Y (.lv2Tail true a) (Send Y ta (t :: tb ++ rest)) r (max n (D 3 tb) + 1) := by
-    intro n' hn
-    obtain ⟨m, rfl⟩ : ∃ m, n' = m + 2 := ⟨n' - 2, by unfold D at hn; omega⟩
-    rw [Send_mid ta tb rest t hg]
-    show pLv2Tail (layoutOps Y) (m + 1) _ true a _ = r
-    unfold pLv2Tail
-    rw [bind_ok (tryConsume_hit m _ _ t (tb ++ rest) (by simp [ht]) htp.2.1 hob)]
-    simp only [brk_mid Fb.ne hgb rest]
-    have hb := Cb (some t) rest (inOrder_tail hob) (glued_tail hgb) hsb (m + 1) (by omega)
-    rw [bind_ok hb, bind_ok (lineOf_S t _)]
-    rw [Send_binop ta tb rest t Fb.ne] at hstab
-    exact hstab (m + 1) (by omega)
-  have hhead : Stop Y F3 ta (t :: tb ++ rest) := ⟨htp.2.1, Or.inr (by show t.type ∉ F3; rw [ht]; decide)⟩
-  have := Ca p1 (t :: tb ++ rest) r _ (by omega) ho (glued_take ta hg) hhead key
-  rw [List.append_assoc]
-  refine this.mono ?_
-  unfold D
-  simp only [List.length_append, List.length_cons]
-  omega
-
-theorem addSub_not_F6 : ∀ ty ∈ addSubTypes, ty ∉ F6 := by decide
-theorem mulDiv_not_F7 : ∀ ty ∈ mulDivTypes, ty ∉ F7 := by decide
-theorem lv3_not_F4 : ∀ ty ∈ lv3ValidTypes, ty ∉ F4 := by decide
-
-/-- `a + b`, `a - b` -/
-theorem case_add (t : Token) (a b : Expr) (ta tb : List Token) (ht : t.type ∈ addSubTypes)
-    (Ca : C5 v Y a ta) (Fb : Facts Y tb) (Cb : C6 v Y b tb) :
-    C5 v Y (.arith (Y.sl t) (lookupD addSubOverride t.type addSubDefault) a b) (ta ++ t :: tb) := by
-  intro p1 rest r n hn1 ho hg hs hstab
-  have htp : Plain t := plain_of_mem addSub_plain ht
-  rw [List.append_assoc] at ho
-  have hob : Y.InOrder (t :: (tb ++ rest)) := inOrder_drop ta ho
-  have hgb : Y.Glued (t :: tb) := glued_drop ta hg
-  have hsb : Stop Y F6 tb rest := stop_binop ta tb rest t Fb.ne hs
-  have key : Stable v Y (.arithTail a) (Send Y ta (t :: tb ++ rest)) r (max n (1 + D 6 tb) + 1) := by
-    intro n' hn
-    obtain ⟨m, rfl⟩ : ∃ m, n' = m + 2 := ⟨n' - 2, by unfold D at hn; omega⟩
-    rw [Send_mid ta tb rest t hg]
-    show pArithTail (layoutOps Y) (m + 1) _ a _ = r
-    unfold pArithTail
-    rw [bind_ok (tryConsume_hit m _ _ t (tb ++ rest) ht htp.2.1 hob)]
-    simp only [brk_mid Fb.ne hgb rest]
-    have hb := Cb (some t) rest (.ok b (Send Y tb rest)) 1 (Nat.le_refl _) (inOrder_tail hob) (glued_tail hgb)
-      (hsb.mono fun _ => F76)
-      (mulDivTail_now b _ rest _ (hsb.fl fun _ => not_mem_of_append_right) hsb.1) (m + 1) (by omega)
-    rw [bind_ok hb, bind_ok (lineOf_S t _)]
-    rw [Send_binop ta tb rest t Fb.ne] at hstab
-    exact hstab (m + 1) (by omega)
-  have hhead : Stop Y F6 ta (t :: tb ++ rest) := ⟨htp.2.1, Or.inr (addSub_not_F6 _ ht)⟩
-  have := Ca p1 (t :: tb ++ rest) r _ (by omega) ho (glued_take ta hg) hhead key
-  rw [List.append_assoc]
-  refine this.mono ?_
-  unfold D
-  simp only [List.length_append, List.length_cons]
-  omega
-
-/-- `a * b`, `a / b`, `a | b`, `a % b` -/
-theorem case_mul (t : Token) (a b : Expr) (ta tb : List Token) (ht : t.type ∈ mulDivTypes)
-    (Ca : C6 v Y a ta) (Fb : Facts Y tb) (Cb : C7 v Y b tb) :
-    C6 v Y (.arith (Y.sl t) (lookupD mulDivTypeMap t.type 0) a b) (ta ++ t :: tb) := by
-  intro p1 rest r n hn1 ho hg hs hstab
-  have htp : Plain t := plain_of_mem mulDiv_plain ht
-  rw [List.append_assoc] at ho
-  have hob : Y.InOrder (t :: (tb ++ rest)) := inOrder_drop ta ho
-  have hgb : Y.Glued (t :: tb) := glued_drop ta hg
-  have hsb : Stop Y F7 tb rest := stop_binop ta tb rest t Fb.ne hs
-  have key : Stable v Y (.mulDivTail a) (Send Y ta (t :: tb ++ rest)) r (max n (D 7 tb) + 1) := by
-    intro n' hn
-    obtain ⟨m, rfl⟩ : ∃ m, n' = m + 2 := ⟨n' - 2, by unfold D at hn; omega⟩
-    rw [Send_mid ta tb rest t hg]
-    show pMulDivTail (layoutOps Y) (m + 1) _ a _ = r
-    unfold pMulDivTail
-    rw [bind_ok (tryConsume_hit m _ _ t (tb ++ rest) ht htp.2.1 hob)]
-    simp only [brk_mid Fb.ne hgb rest]
-    have hb := Cb (some t) rest (inOrder_tail hob) (glued_tail hgb) hsb (m + 1) (by omega)
-    rw [bind_ok hb, bind_ok (lineOf_S t _)]
-    rw [Send_binop ta tb rest t Fb.ne] at hstab
-    exact hstab (m + 1) (by omega)
-  have hhead : Stop Y F7 ta (t :: tb ++ rest) := ⟨htp.2.1, Or.inr (mulDiv_not_F7 _ ht)⟩
-  have := Ca p1 (t :: tb ++ rest) r _ (by omega) ho (glued_take ta hg) hhead key
-  rw [List.append_assoc]
-  refine this.mono ?_
-  unfold D
-  simp only [List.length_append, List.length_cons]
-  omega
-
-/-- `a < b` and the other comparisons: exactly one -/
-theorem case_cmp (t : Token) (a b : Expr) (ta tb : List Token) (ht : t.type ∈ lv3ValidTypes)
-    (Ca : C4 v Y a ta) (Fb : Facts Y tb) (Cb : C4 v Y b tb) :
-    C3 v Y (.logic (Y.sl t) (lookupD logicTypeMap t.type 0) a b) (ta ++ t :: tb) := by
-  intro p1 rest ho hg hs n' hn
-  have htp : Plain t := plain_of_mem lv3_plain ht
-  rw [List.append_assoc] at ho
-  have hob : Y.InOrder (t :: (tb ++ rest)) := inOrder_drop ta ho
-  have hgb : Y.Glued (t :: tb) := glued_drop ta hg
-  have hsb : Stop Y F3 tb rest := stop_binop ta tb rest t Fb.ne hs
-  obtain ⟨m, rfl⟩ : ∃ m, n' = m + 2 := ⟨n' - 2, by unfold D at hn; omega⟩
-  have hlen : D 3 (ta ++ t :: tb) = 16 * (ta.length + (tb.length + 1)) + 10 := by
-    unfold D; simp only [List.length_append, List.length_cons]
-  rw [hlen] at hn
-  show pLv3 (layoutOps Y) (m + 1) _ true _ = _
-  unfold pLv3
-  rw [List.append_assoc]
-  have hhead : Stop Y F4 ta (t :: tb ++ rest) := ⟨htp.2.1, Or.inr (lv3_not_F4 _ ht)⟩
-  have ha := Ca p1 (t :: tb ++ rest) ho (glued_take ta hg) hhead (m + 1) (by unfold D; omega)
-  rw [bind_ok ha, Send_mid ta tb rest t hg]
-  rw [bind_ok (tryConsume_hit m _ _ t (tb ++ rest) ht htp.2.1 hob)]
-  simp only [brk_mid Fb.ne hgb rest]
-  have hb := Cb (some t) rest (inOrder_tail hob) (glued_tail hgb) (hsb.mono fun _ => F43) (m + 1) (by unfold D; omega)
-  rw [bind_ok hb, bind_ok (lineOf_S t _), Send_binop ta tb rest t Fb.ne]
-  rfl
-
--- ---- a tighter expression where a looser one is expected ---------------------------------------------------------------
-
-theorem up6 (e : Expr) (ts : List Token) (h : C7 v Y e ts) : C6 v Y e ts := by
-  intro p1 rest r n hn1 ho hg hs hstab n' hn
-  obtain ⟨m, rfl⟩ : ∃ m, n' = m + 1 := ⟨n' - 1, by unfold D at hn; omega⟩
-  show pMulDiv _ _ = r
-  unfold pMulDiv
-  rw [bind_ok (h p1 rest ho hg hs m (by unfold D at hn ⊢; omega))]
-  exact hstab m (by unfold D at hn; omega)
-
-theorem up5 (e : Expr) (ts : List Token) (h : C6 v Y e ts) : C5 v Y e ts := by
-  intro p1 rest r n hn1 ho hg hs hstab n' hn
-  obtain ⟨m, rfl⟩ : ∃ m, n' = m + 1 := ⟨n' - 1, by unfold D at hn; omega⟩
-  show pArith _ _ = r
-  unfold pArith
-  rw [bind_ok (h p1 rest (.ok e (Send Y ts rest)) 1 (Nat.le_refl _) ho hg (hs.mono fun _ => F76)
-    (mulDivTail_now e _ rest _ (hs.fl fun _ => not_mem_of_append_right) hs.1) m (by unfold D at hn ⊢; omega))]
-  exact hstab m (by unfold D at hn; omega)
-
-theorem up4 (e : Expr) (ts : List Token) (h : C5 v Y e ts) : C4 v Y e ts := by
-  intro p1 rest ho hg hs n' hn
-  obtain ⟨m, rfl⟩ : ∃ m, n' = m + 1 := ⟨n' - 1, by unfold D at hn; omega⟩
-  have hs5 : Stop Y F5 ts rest := hs.mono fun _ => F54
-  show pLv4 v (layoutOps Y) m _ true _ = _
-  unfold pLv4
-  rw [bind_ok (h p1 rest (.ok e (Send Y ts rest)) 1 (Nat.le_refl _) ho hg (hs5.mono fun _ => F65)
-    (arithTail_now e _ rest _ (hs5.fl fun _ => not_mem_of_append_right) hs.1) m (by unfold D at hn ⊢; omega))]
-  simp only [if_true]
-  unfold Send
-  rw [bind_ok (tryConsume_miss m _ _ rest _ (hs.fl fun _ => not_mem_of_append_right) hs.1)]
-  rfl
-
-theorem up3 (e : Expr) (ts : List Token) (h : C4 v Y e ts) : C3 v Y e ts := by
-  intro p1 rest ho hg hs n' hn
-  obtain ⟨m, rfl⟩ : ∃ m, n' = m + 1 := ⟨n' - 1, by unfold D at hn; omega⟩
-  show pLv3 (layoutOps Y) m _ true _ = _
-  unfold pLv3
-  rw [bind_ok (h p1 rest ho hg (hs.mono fun _ => F43) m (by unfold D at hn ⊢; omega))]
-  unfold Send
-  rw [bind_ok (tryConsume_miss m _ _ rest _ (hs.fl fun _ => not_mem_of_append_right) hs.1)]
-  rfl
-
-theorem up2 (e : Expr) (ts : List Token) (h : C3 v Y e ts) : C2 v Y e ts := by
-  intro p1 rest r n hn1 ho hg hs hstab n' hn
-  obtain ⟨m, rfl⟩ : ∃ m, n' = m + 1 := ⟨n' - 1, by unfold D at hn; omega⟩
-  show pLv2 _ true _ = r
-  unfold pLv2
-  rw [bind_ok (h p1 rest ho hg hs m (by unfold D at hn ⊢; omega))]
-  exact hstab m (by unfold D at hn; omega)
-
-theorem up1 (e : Expr) (ts : List Token) (h : C2 v Y e ts) : C1 v Y e ts := by
-  intro p1 rest r n hn1 ho hg hs hstab n' hn
-  obtain ⟨m, rfl⟩ : ∃ m, n' = m + 1 := ⟨n' - 1, by unfold D at hn; omega⟩
-  show pLv1 _ true _ = r
-  unfold pLv1
-  rw [bind_ok (h p1 rest (.ok e (Send Y ts rest)) 1 (Nat.le_refl _) ho hg (hs.mono fun _ => F32)
-    (lv2Tail_now e _ rest _ (hs.fl fun _ => not_mem_of_append_right) hs.1) m (by unfold D at hn ⊢; omega))]
-  exact hstab m (by unfold D at hn; omega)
-
--- ---- level 7: identifiers, strings, braces -----------------------------------------------------------------------------
-
-theorem Send_single (t : Token) (rest : List Token) : Send Y [t] rest = S Y (some t) rest (Y.brk t (Y.peek rest)) := rfl
-
-theorem basic_id (m : Nat) (p1 : Option Token) (t : Token) (rest : List Token) (ht : t.type = cTypeIdentifier)
-    (ho : Y.InOrder (t :: rest)) :
-    parse v (layoutOps Y) (m + 2) .basic (S Y p1 (t :: rest) false) =
-      .ok (.id (Y.idOf t)) (Send Y [t] rest) := by
-  have htp : Plain t := by unfold Plain; rw [ht]; decide
-  show pBasic v (layoutOps Y) (m + 1) _ _ = _
-  unfold pBasic
-  rw [bind_ok (tryConsume_hit m _ p1 t rest (by rw [ht]; decide) htp.2.1 ho)]
-  simp only [ht, if_true]
-  rfl
-
-theorem basic_str (m : Nat) (p1 : Option Token) (t : Token) (rest : List Token) (ht : t.type = cTypeString)
-    (ho : Y.InOrder (t :: rest)) :
-    parse v (layoutOps Y) (m + 2) .basic (S Y p1 (t :: rest) false) =
-      .ok (.str (Y.sl t) (runesToString t.literal)) (Send Y [t] rest) := by
-  have htp : Plain t := by unfold Plain; rw [ht]; decide
-  show pBasic v (layoutOps Y) (m + 1) _ _ = _
-  unfold pBasic
-  rw [bind_ok (tryConsume_hit m _ p1 t rest (by rw [ht]; decide) htp.2.1 ho)]
-  have h1 : ¬ cTypeString = cTypeIdentifier := by decide
-  simp only [ht, h1, if_true, if_false]
-  rfl
-
-/-- an expression whose first token can start a basic expression: ParseMemberExpr = ParseBasicExpr, then the member tail -/
-theorem member_of_basic (m : Nat) (p1 : Option Token) (ts rest : List Token) (e : Expr) (hne : ts ≠ [])
-    (hfirst : (Y.peek ts).type ∈ [cTypeIdentifier, cTypeString, cTypeStmtQuoteL])
-    (hs : Stop Y F7 ts rest)
-    (hb : parse v (layoutOps Y) (m + 1) .basic (S Y p1 (ts ++ rest) false) = .ok e (Send Y ts rest)) :
-    parse v (layoutOps Y) (m + 2) .member (S Y p1 (ts ++ rest) false) = .ok e (Send Y ts rest) := by
-  show pMember v (layoutOps Y) (m + 1) _ _ = _
-  unfold pMember
-  have hp : (Y.peek (ts ++ rest)).type ∈ [cTypeIdentifier, cTypeString, cTypeStmtQuoteL] := by
-    rw [peek_append hne]; exact hfirst
-  have h1 : (Y.peek (ts ++ rest)).type ∉ [cTypeObjThisW] := by
-    intro h
-    simp only [List.mem_cons, List.not_mem_nil, or_false] at h hp
-    rw [h] at hp
-    revert hp; decide
-  have h2 : (Y.peek (ts ++ rest)).type ≠ cTypeCommaSep := by
-    intro h
-    simp only [List.mem_cons, List.not_mem_nil, or_false] at hp
-    rw [h] at hp
-    revert hp; decide
-  rw [bind_ok (tryConsume_miss (m + 1) _ p1 (ts ++ rest) false (Or.inr h1) h2)]
-  show (parse v (layoutOps Y) (m + 1) .basic >>= fun e => parse v (layoutOps Y) (m + 1) (.memberTail e)) _ = _
-  rw [bind_ok hb]
-  exact memberTail_now e _ rest _ (hs.fl fun _ => F7_member) hs.1 (m + 1) (by omega)
-
-theorem case_id (t : Token) (ht : t.type = cTypeIdentifier) : C7 v Y (.id (Y.idOf t)) [t] := by
-  intro p1 rest ho hg hs n' hn
-  obtain ⟨m, rfl⟩ : ∃ m, n' = m + 3 := ⟨n' - 3, by unfold D at hn; simp at hn; omega⟩
-  exact member_of_basic (m + 1) p1 [t] rest _ (by simp) (by simp [Layout.peek, ht]) hs
-    (basic_id m p1 t rest ht ho)
-
-theorem case_str (t : Token) (ht : t.type = cTypeString) : C7 v Y (.str (Y.sl t) (runesToString t.literal)) [t] := by
-  intro p1 rest ho hg hs n' hn
-  obtain ⟨m, rfl⟩ : ∃ m, n' = m + 3 := ⟨n' - 3, by unfold D at hn; simp at hn; omega⟩
-  exact member_of_basic (m + 1) p1 [t] rest _ (by simp) (by simp [Layout.peek, ht]) hs
-    (basic_str m p1 t rest ht ho)
-
-theorem getLast?_brace (l r : Token) (ts : List Token) : (l :: ts ++ [r]).getLast? = some r := by
-  have : l :: ts ++ [r] = (l :: ts) ++ [r] := rfl
-  rw [this, List.getLast?_append]
-  rfl
-
-/-- `{ e }` -/
-theorem case_brace (l r : Token) (e : Expr) (ts : List Token) (hl : l.type = cTypeStmtQuoteL) (hr : r.type = cTypeStmtQuoteR)
-    (Fe : Facts Y ts) (Ce : C1 v Y e ts) : C7 v Y (e.setLine (Y.sl l)) (l :: ts ++ [r]) := by
-  intro p1 rest ho hg hs n' hn
-  have hlen : D 7 (l :: ts ++ [r]) = 16 * (ts.length + 2) + 2 := by
-    unfold D; simp only [List.length_append, List.length_cons, List.length_nil]
-  rw [hlen] at hn
-  obtain ⟨m, rfl⟩ : ∃ m, n' = m + 3 := ⟨n' - 3, by omega⟩
-  have hlp : Plain l := by unfold Plain; rw [hl]; decide
-  have hrp : Plain r := by unfold Plain; rw [hr]; decide
-  refine member_of_basic (m + 1) p1 (l :: ts ++ [r]) rest _ (by simp) (by simp [Layout.peek, hl]) hs ?_
-  have hshape : (l :: ts ++ [r]) ++ rest = l :: (ts ++ r :: rest) := by simp
-  rw [hshape] at ho ⊢
-  have hgl : Y.Glued (l :: ts) := glued_take (l :: ts) (b := [r]) hg
-  have hgr : Y.Glued (ts ++ r :: []) := glued_tail (t := l) hg
-  have hoi : Y.InOrder (ts ++ r :: rest) := inOrder_tail ho
-  have hor : Y.InOrder (r :: rest) := inOrder_drop ts hoi
-  show pBasic v (layoutOps Y) (m + 1) _ _ = _
-  unfold pBasic
-  rw [bind_ok (tryConsume_hit m _ p1 l (ts ++ r :: rest) (by rw [hl]; decide) hlp.2.1 ho), brk_mid Fe.ne hgl]
-  have h1 : ¬ cTypeStmtQuoteL = cTypeIdentifier := by decide
-  have h2 : ¬ cTypeStmtQuoteL = cTypeString := by decide
-  have h3 : ¬ cTypeStmtQuoteL = cTypeArrayQuoteL := by decide
-  simp only [hl, h1, h2, h3, if_true, if_false]
-  -- the inner expression, then the closing brace
-  have hin := Ce (some l) (r :: rest) (.ok e (Send Y ts (r :: rest))) 1 (Nat.le_refl _) hoi (glued_tail hgl)
-    ⟨hrp.2.1, Or.inr (by show r.type ∉ F2; rw [hr]; decide)⟩
-    (lv1Tail_now e _ (r :: rest) _ (Or.inr (by show r.type ∉ [cTypeLogicOrW]; rw [hr]; decide)) hrp.2.1)
-    (m + 1) (by unfold D; omega)
-  have hsend : Send Y ts (r :: rest) = S Y ts.getLast? (r :: rest) false := by
-    show S Y ts.getLast? (r :: rest) (Y.jf ts.getLast? r) = _
-    rw [glued_joint ts hgr]
-  rw [hsend] at hin
-  have hcons := consume_hit (Y := Y) (v := v) m [cTypeStmtQuoteR] ts.getLast? r rest (by simp [hr]) hrp.2.1 hor
-  have hfin : Send Y (l :: ts ++ [r]) rest = S Y (some r) rest (Y.brk r (Y.peek rest)) := by
-    unfold Send
-    rw [getLast?_brace]
-    rfl
-  rw [hfin]
-  simp only [Bind.bind, PM.bind, hin, hcons, lineOf_S, Pure.pure, PM.pure]
-
-theorem facts_brace (l r : Token) (ts : List Token) (hl : l.type = cTypeStmtQuoteL) (hr : r.type = cTypeStmtQuoteR)
-    (Fe : Facts Y ts) : Facts Y (l :: ts ++ [r]) where
-  ne := by simp
-  plain := by
-    intro x hx
-    simp only [List.cons_append, List.mem_cons, List.mem_append, List.not_mem_nil, or_false] at hx
-    rcases hx with rfl | hx | rfl
-    · unfold Plain; rw [hl]; decide
-    · exact Fe.plain x hx
-    · unfold Plain; rw [hr]; decide
-  first := by simp [Layout.peek, hl]
-
-theorem facts_single (t : Token) (hp : Plain t) (hf : t.type ∈ [cTypeIdentifier, cTypeString, cTypeStmtQuoteL]) : Facts Y [t] where
-  ne := by simp
-  plain := by
-    intro x hx
-    simp only [List.mem_cons, List.not_mem_nil, or_false] at hx
-    subst hx
-    exact hp
-  first := hf
-
-/-- the claim of its level holds for every linearisation -/
-theorem linE_claim {k : Nat} {e : Expr} {ts : List Token} (h : LinE Y k e ts) : Facts Y ts ∧ Claim v Y k e ts := by
+/-- the claim of its kind and level holds for every rendering -/
+theorem linX_claim {cfg : Bool} {k : Nat} {nd : ENode} {ts : List Token} (h : LinX Y cfg k nd ts) :
+    NodeClaimX v Y cfg k nd ts := by
   induction h with
-  | id t ht =>
-    exact ⟨facts_single t (by unfold Plain; rw [ht]; decide) (by rw [ht]; decide), case_id t ht⟩
-  | str t ht =>
-    exact ⟨facts_single t (by unfold Plain; rw [ht]; decide) (by rw [ht]; decide), case_str t ht⟩
-  | brace l r e ts hl hr _ ih => exact ⟨facts_brace l r ts hl hr ih.1, case_brace l r e ts hl hr ih.1 ih.2⟩
-  | up k e ts hk _ ih =>
+  | id t ht => exact ⟨facts_cons (by rw [ht]; decide), case_id t ht⟩
+  | str t ht => exact ⟨facts_cons (by rw [ht]; decide), case_str t ht⟩
+  | brace l r e ts hl hr _ ih => exact ⟨facts_cons (by rw [hl]; decide), case_brace l r e ts hl hr ih.1 ih.2⟩
+  | @up cfg k e ts hk _ ih =>
     refine ⟨ih.1, ?_⟩
     match k, hk, ih.2 with
-    | 1, _, c => exact up1 e ts c
-    | 2, _, c => exact up2 e ts c
-    | 3, _, c => exact up3 e ts c
-    | 4, _, c => exact up4 e ts c
+    | 1, _, c => exact up1 cfg e ts c
+    | 2, _, c => exact up2 cfg e ts c
+    | 3, _, c => exact up3 cfg e ts c
+    | 4, _, c => exact up4 cfg e ts c
     | 5, _, c => exact up5 e ts c
     | 6, _, c => exact up6 e ts c
     | (n + 7), _, c => exact c.elim
-  | or t a b ta tb ht _ _ iha ihb =>
-    exact ⟨facts_binop iha.1 ihb.1 (by unfold Plain; rw [ht]; decide), case_or t a b ta tb ht iha.2 ihb.1 ihb.2⟩
-  | and t a b ta tb ht _ _ iha ihb =>
-    exact ⟨facts_binop iha.1 ihb.1 (by unfold Plain; rw [ht]; decide), case_and t a b ta tb ht iha.2 ihb.1 ihb.2⟩
-  | cmp t a b ta tb ht _ _ iha ihb =>
-    exact ⟨facts_binop iha.1 ihb.1 (plain_of_mem lv3_plain ht), case_cmp t a b ta tb ht iha.2 ihb.1 ihb.2⟩
-  | add t a b ta tb ht _ _ iha ihb =>
-    exact ⟨facts_binop iha.1 ihb.1 (plain_of_mem addSub_plain ht), case_add t a b ta tb ht iha.2 ihb.1 ihb.2⟩
-  | mul t a b ta tb ht _ _ iha ihb =>
-    exact ⟨facts_binop iha.1 ihb.1 (plain_of_mem mulDiv_plain ht), case_mul t a b ta tb ht iha.2 ihb.1 ihb.2⟩
+  | @or cfg t a b ta tb ht _ _ iha ihb => exact ⟨facts_append iha.1, case_or cfg t a b ta tb ht iha.2 ihb.1 ihb.2⟩
+  | @and cfg t a b ta tb ht _ _ iha ihb => exact ⟨facts_append iha.1, case_and cfg t a b ta tb ht iha.2 ihb.1 ihb.2⟩
+  | @cmp cfg t a b ta tb ht _ _ iha ihb => exact ⟨facts_append iha.1, case_cmp cfg t a b ta tb ht iha.2 ihb.1 ihb.2⟩
+  | add t a b ta tb ht _ _ iha ihb => exact ⟨facts_append iha.1, case_add t a b ta tb ht iha.2 ihb.1 ihb.2⟩
+  | mul t a b ta tb ht _ _ iha ihb => exact ⟨facts_append iha.1, case_mul t a b ta tb ht iha.2 ihb.1 ihb.2⟩
+  | @assign cfg t a b ta tb ht hassn _ _ iha ihb =>
+    exact ⟨facts_append iha.1, case_assign cfg t a b ta tb ht hassn iha.2 ihb.1 ihb.2⟩
+  | commaAfter c e ts hc _ ih => exact ⟨facts_append ih.1, comma6 c e ts hc ih.2⟩
+  | this kw p hk hp => exact ⟨facts_cons (by rw [hk]; decide), case_this kw p hk hp⟩
+  | dot d p r tr hd hp _ ih => exact ⟨facts_append ih.1, case_dot d p r tr hd hp ih.2⟩
+  | idxId h i r tr hh hi _ ih => exact ⟨facts_append ih.1, case_idxTok h i r tr _ hh (Or.inl ⟨hi, rfl⟩) ih.2⟩
+  | idxStr h i r tr hh hi _ ih => exact ⟨facts_append ih.1, case_idxTok h i r tr _ hh (Or.inr ⟨hi, rfl⟩) ih.2⟩
+  | idxExpr h l rb r tr e te hh hl hr _ _ ihr ihe =>
+    refine ⟨?_, case_idxExpr h l rb r tr e te hh hl hr ihr.2 ihe.1 ihe.2⟩
+    have : tr ++ h :: l :: te ++ [rb] = tr ++ (h :: l :: te ++ [rb]) := by simp
+    rw [this]; exact facts_append ihr.1
+  | call l n ps tc yl hl _ hy ih => exact ⟨facts_cons (by rw [hl]; decide), case_call hl ih.1.1 ih.1.2 ih.2 hy⟩
+  | new l nw n ps tc hl hnw _ ih => exact ⟨facts_cons (by rw [hl]; decide), case_new hl hnw ih.1.1 ih.1.2 ih.2.loose⟩
+  | mcall kw l root tr n ps tc cs tcs yl hk _ hl _ _ hy ihr ihf ihc =>
+    exact ⟨facts_cons (by rw [hk]; decide), case_mcall hk ihr.1 ihr.2 hl ihf.1.1 ihf.1.2 ihf.2.loose ihc hy⟩
+  | arrEmpty l r hl hr => exact ⟨facts_cons (by rw [hl]; decide), case_arrEmpty l r hl hr⟩
+  | hmEmpty l eq r hl heq hr => exact ⟨facts_cons (by rw [hl]; decide), case_hmEmpty l eq r hl heq hr⟩
+  | arr l r e1 t1 es ts hl hr _ hit ih1 ihs =>
+    exact ⟨facts_cons (by rw [hl]; decide), case_arr l r e1 t1 es ts hl hr ih1.1 ih1.2 ihs.1 (linX_items_nil hit) ihs.2⟩
+  | hm l eq r k tk vl tv kvs ts hl heq hr _ _ _ ihk ihv ihs =>
+    exact ⟨facts_cons (by rw [hl]; decide), case_hm l eq r k tk vl tv kvs ts hl heq hr ihk.1 ihk.2 ihv.1 ihv.2 ihs.1 ihs.2⟩
+  | argsOne e te _ ih => exact ⟨ih.1, args_one ih.1 ih.2⟩
+  | argsCons p e te es ts _ hopen hp _ ihe ihs => exact ⟨facts_append ihe.1, args_cons ihe.1 ihe.2 hopen hp ihs.1 ihs.2⟩
+  | fcall0 f rp hf hr => exact ⟨⟨by simp, hf⟩, fcall_zero_t hf hr⟩
+  | fcallArgs f colon rp es ta hf hc hr _ ih => exact ⟨⟨by simp, hf⟩, fcall_args_t hf hc hr ih.1 ih.2⟩
+  | chainNil => exact chain_nil
+  | chainCons p l n ps tc cs tcs hp hl _ _ ihf ihc => exact chain_cons hp hl ihf.1.1 ihf.1.2 ihf.2.loose ihc
+  | itemsNil => exact ⟨fun h => absurd rfl h, items_nil⟩
+  | itemsCons e te es ts _ hit ihe ihs =>
+    exact ⟨fun _ => facts_append ihe.1, items_cons ihe.1 ihe.2 ihs.1 (linX_items_nil hit) ihs.2⟩
+  | kvsNil => exact ⟨fun h => absurd rfl h, kvs_nil⟩
+  | kvsCons eq k tk vl tv kvs ts heq _ _ _ ihk ihv ihs =>
+    refine ⟨fun _ => ?_, kvs_cons heq ihk.1 ihk.2 ihv.1 ihv.2 ihs.1 ihs.2⟩
+    have : tk ++ eq :: tv ++ ts = tk ++ (eq :: tv ++ ts) := by simp
+    rw [this]; exact facts_append ihk.1
 
 -- ---- the interface -----------------------------------------------------------------------------------------------------
 
 theorem linE_facts {k : Nat} {e : Expr} {ts : List Token} (h : LinE Y k e ts) :
-    ts ≠ [] ∧ (∀ t ∈ ts, Plain t) ∧ (Y.peek ts).type ∈ [cTypeIdentifier, cTypeString, cTypeStmtQuoteL] :=
-  let F := (linE_claim (v := Variant.fixed) h).1
-  ⟨F.ne, F.plain, F.first⟩
+    ts ≠ [] ∧ (Y.peek ts).type ∈ exprHeads :=
+  let F := (linX_claim (v := Variant.fixed) h).1
+  ⟨F.ne, F.first⟩
+
+/-- the round trip of an expression inside a longer token list; the follow set takes the right edge of `e` into account -/
+theorem expr_roundtrip_open {e : Expr} {ts : List Token} (h : LinE Y 1 e ts) (hg : Y.Glued ts) (p1 : Option Token)
+    (rest : List Token) (ho : Y.InOrder (ts ++ rest)) (hs : Stop Y (B1 true ++ FO e) ts rest) :
+    Stable v Y (.expr true) (S Y p1 (ts ++ rest) false) (.ok e (Send Y ts rest)) (16 * ts.length + 16) :=
+  c1_done (linX_claim h).2 p1 rest ho hg hs
+
+theorem F1_open (e : Expr) : ∀ ty, ty ∉ F1 → ty ∉ B1 true ++ FO e := by
+  intro ty h hm
+  rcases List.mem_append.mp hm with hm | hm
+  · exact h (List.mem_append_left _ hm)
+  · exact h (List.mem_append_right _ (by rw [FO_sub e ty hm]; simp))
 
 /-- the round trip of an expression inside a longer token list -/
 theorem expr_roundtrip {e : Expr} {ts : List Token} (h : LinE Y 1 e ts) (hg : Y.Glued ts) (p1 : Option Token) (rest : List Token)
     (ho : Y.InOrder (ts ++ rest)) (hs : Stop Y F1 ts rest) :
-    Stable v Y (.expr true) (S Y p1 (ts ++ rest) false) (.ok e (Send Y ts rest)) (16 * ts.length + 16) := by
-  have C : C1 v Y e ts := (linE_claim h).2
-  have := C p1 rest (.ok e (Send Y ts rest)) 1 (Nat.le_refl _) ho hg (hs.mono fun _ => F21)
-    (lv1Tail_now e _ rest _ (hs.fl fun _ => not_mem_of_append_right) hs.1)
-  refine this.mono ?_
-  unfold D
-  omega
+    Stable v Y (.expr true) (S Y p1 (ts ++ rest) false) (.ok e (Send Y ts rest)) (16 * ts.length + 16) :=
+  expr_roundtrip_open h hg p1 rest ho (hs.mono (F1_open e))
+
+theorem fcall_claim {n : Ident} {ps : List Expr} {tc : List Token} (h : LinX Y true 0 (.fcall n ps) tc) :
+    (tc ≠ [] ∧ (Y.peek tc).type = cTypeIdentifier) ∧ CFcall v Y n ps tc :=
+  ⟨(linX_claim (v := v) h).1, (linX_claim h).2.loose⟩
+
+theorem chain_claim {cs : List Expr} {tcs : List Token} (h : LinX Y true 0 (.chain cs) tcs) : CChain v Y cs tcs := linX_claim h
 
 end ZnVerif.Proofs.StmtRT
